@@ -243,7 +243,8 @@ class JSONSerialization(Serialization):
         try:
             allowed_types = [{'type': cls.json_schema_literal_types[type(obj)]}
                              for obj in p.objects]
-            schema = {'anyOf': allowed_types}
+            # anyOf must not be empty (a Selector without objects)
+            schema = {'anyOf': allowed_types} if allowed_types else {}
             schema['enum'] = p.objects
             return schema
         except Exception:
@@ -258,7 +259,8 @@ class JSONSerialization(Serialization):
         try:
             allowed_types = [{'type': cls.json_schema_literal_types[type(obj)]}
                              for obj in p.objects.values()]
-            schema = {'anyOf': allowed_types}
+            # anyOf must not be empty (a Selector without objects)
+            schema = {'anyOf': allowed_types} if allowed_types else {}
             schema['enum'] = p.objects
             return schema
         except Exception:
